@@ -101,7 +101,9 @@ fn gen_q(rng: &mut Rng, depth: u32, ctes: &mut Vec<String>) -> String {
             4 => { let c = gen_q(rng, depth - 1, ctes); format!("SELECT count(v) AS k, avg(v) AS v FROM {c}") }
             5 => { let c = gen_q(rng, depth - 1, ctes); format!("SELECT k, max(v) AS v FROM {c} GROUP BY k") }
             6 | 7 => { let jt = *rng.pick(&["JOIN", "LEFT JOIN"]); let a = gen_q(rng, depth - 1, ctes); let b = gen_q(rng, depth - 1, ctes);
-                       if a == b { format!("SELECT k, v FROM {a}") } else { format!("SELECT {a}.k AS k, {a}.v + {b}.v AS v FROM {a} {jt} {b} ON {a}.k = {b}.k") } }
+                       // the same sub-query on both sides: the two inputs of the join are one relation, which a derivation may label differently
+                       if a == b { format!("SELECT l.k AS k, l.v + r.v AS v FROM {a} AS l {jt} {a} AS r ON l.k = r.k") } else { format!("SELECT {a}.k AS k, {a}.v + {b}.v AS v FROM {a} {jt} {b} ON {a}.k = {b}.k") } }
+            8 if rng.chance(1, 2) => { let a = gen_q(rng, depth - 1, ctes); format!("SELECT l.k AS k, l.v - r.v AS v FROM {a} AS l JOIN {a} AS r ON l.k = r.k") }
             8 => { let a = gen_q(rng, depth - 1, ctes); let b = gen_q(rng, depth - 1, ctes); format!("SELECT k, v FROM {a} UNION SELECT k, v FROM {b}") }
             _ => { let c = gen_q(rng, depth - 1, ctes); format!("SELECT k, count(v) AS v FROM {c} GROUP BY k") }
         }
@@ -246,8 +248,20 @@ pub fn eval(case: &J) -> Outcome {
         match (best, st) {
             (Some(_), "err") => out.fail(&format!("C13/rules/{name}/unreachable-but-derivation-exists"), format!("{sql}: a consistent derivation with an acceptable root exists but the compiler reported the property unreachable")),
             (None, "ok") => out.fail(&format!("C13/rules/{name}/rewritten-without-derivation"), format!("{sql}: no consistent derivation with an acceptable root label exists but the compiler returned a rewriting")),
+            // a panic is not a rewriting either (the C18 report of the same run names the line; this one says what C13 promises)
+            (Some(_), "panic") => { let r = if name == "dp" { &dp_res } else { &pup_res }; if let Err((loc, msg)) = r {
+                out.fail(&format!("C13/rules/{name}/panic-instead-of-rewriting/{}{}", site(loc, msg), if has_empty_range(&relation) { "/empty-range" } else { "" }), format!("{sql}: a consistent derivation with an acceptable root exists but the entry point panicked: {msg}")); } }
             _ => {}
         }
+        // the derivation is applied as selected: every node it labels DP is rewritten into a noisy aggregation (counted along the tree, as the
+        // derivation is), so the relation returned has at least as many noise Maps as the derivation has DP nodes
+        if name == "dp" { if let (Ok(Ok(rw)), Some(d)) = (&dp_res, chosen.get("deriv")) {
+            fn dp_nodes(d: &J) -> usize { (if d["rule"][1] == "dp" { 1 } else { 0 }) + d["in"].as_array().map_or(0, |a| a.iter().map(dp_nodes).sum()) }
+            fn noise_maps(r: &Relation) -> usize { (match r { Relation::Map(m) if m.projection().iter().any(|e| format!("{e}").contains("random")) => 1, _ => 0 }) + r.inputs().iter().map(|i| noise_maps(i)).sum::<usize>() }
+            let (want, got) = (dp_nodes(d), noise_maps(rw.relation()));
+            if got < want { out.fail("C13/rules/dp/applied-derivation-differs", format!("{sql}: the selected derivation rewrites {want} node(s) into DP aggregations but the relation returned contains {got} noisy aggregation(s)")); }
+            else if want > 0 { out.tag("dp-application-checked"); }
+        } }
         if let (Some(b), Some(c)) = (best, chosen.get("score").and_then(|s| s.as_i64())) {
             if (c as f64) < b { out.fail(&format!("C13/rules/{name}/not-best-score"), format!("{sql}: the derivation applied has score {c} but a consistent acceptable derivation with score {b} exists")); }
         }
